@@ -15,7 +15,7 @@ class C15(Prop):
             "first len(all_pairs) indices visit every valid (version, suite) pair; non-trivial = at least one installation "
             "event observed; distinct = spec digests")
     reach = ["tls_legacy", "tls13", "tls13_switch_client", "tls13_switch_server", "quic_initial", "quic_tls", "quic_ku",
-             "mac_keys", "cbc_iv_implicit", "aead_fixed_iv", "sha384_prf"]
+             "mac_keys", "cbc_iv_implicit", "aead_fixed_iv", "sha384_prf", "resumption_shares_master_secret"]
 
     def plan(self, tier):
         p = super().plan(tier)
@@ -33,7 +33,14 @@ class C15(Prop):
         else:
             from .. import quicpeer
             c = quicpeer.gen_quic_conn(R.fork("q"), 0, {"ku_pct": 60}, used)
-        return {"prop": "C15", "conns": [c], "tap": gen.gen_tap(R.fork("tap"))}
+        conns = [c]
+        if c["proto"] == "tls" and c["ver"] != T.TLS13 and idx >= len(pairs) and R.chance(40):
+            # a second connection resuming the first one: same master secret, new randoms -> different keys
+            c2 = gen.gen_tls_conn(R.fork("conn2"), 1, cfg, used)
+            if gen.make_resumption_of(R.fork("resume"), c2, c):
+                conns.append(c2)
+        return {"prop": "C15", "conns": conns, "tap": gen.gen_tap(R.fork("tap")),
+                "policy": R.choice(["concurrent", "sequential"])}
 
     def quic_available(self):
         import os
@@ -44,18 +51,22 @@ class C15(Prop):
         ex = world.expand(spec)
         out.sim_time_ns = ex["stats"]["sim_time_ns"]
         res = run_export(lane, spec, ex, out, probes=["keys", "quic"])
-        conn = spec["conns"][0]
-        t = ex["truth"]["conns"][0]
-        out.sample = {"seed": spec.get("seed"), "conn": describe_conn(conn)}
+        out.sample = {"seed": spec.get("seed"), "conns": [describe_conn(c) for c in spec["conns"]]}
         if failure_class(res):
             out.count("run_failed")
             return out
         pr = res.probes or []
-        if conn["proto"] == "tls":
-            self.check_tls(out, conn, t, pr)
-        else:
-            from .. import quicpeer
-            quicpeer.check_keys(out, conn, t, pr)
+        for conn, t in zip(spec["conns"], ex["truth"]["conns"]):
+            if conn["proto"] == "tls":
+                mine = [p for p in pr if (p[0] == "keys" and p[1].get("port") == conn["c"]["port"])]
+                if len(spec["conns"]) == 1:
+                    mine += [p for p in pr if p[0] == "keyupd"]
+                if conn.get("resumes") is not None:
+                    out.count("reach:resumption_shares_master_secret")
+                self.check_tls(out, conn, t, mine)
+            else:
+                from .. import quicpeer
+                quicpeer.check_keys(out, conn, t, pr)
         return out
 
     def check_tls(self, out, conn, t, pr):
